@@ -263,8 +263,15 @@ def run(ctx):
     entry = [roles[t]["get_suggestion"] for t in roles] + [prog.method_impl(t, "backspace_event") for t in roles]
     reach = prog.reach(entry, foreign_trait_impls=False)
     callers = [k for k in callers if k in reach]
+    from . import roles as _roles17
     for fk in sorted(callers):
         b = prog.body(fk)
+        staged_body = None
+        root17, climbed17 = builders.builder_root(prog, fk)
+        if climbed17 and not builders.push_events(prog, fk, ctors) and not any(callee_name(t) == q for (_, t) in prog.body(root17).calls()):
+            # the quoter call sits in a private stage split off the builder: look at the builder with its stages spliced in
+            fk = root17
+            b = staged_body = _roles17.ib(prog, fk)
         short = fk.split("::")[-1]
         qcalls = [(bb, t) for (bb, t) in b.calls() if callee_name(t) == q]
         if len(qcalls) != 1:
@@ -372,7 +379,7 @@ def run(ctx):
         else:
             r2.ok("%s:order" % short, "all %d consumers of the split value come after the option test" % n_uses)
         # R3: raw-text pushes
-        for p in builders.push_events(prog, fk, ctors):
+        for p in builders.push_events(prog, fk, ctors, body=staged_body):
             if p.item is None:
                 continue
             pe = peel_conv(p.item)
